@@ -32,7 +32,11 @@ const (
 // schema of the alphabet and in no reason template.
 const mkS = "\u029e"
 
-var c19Markers = []string{mk1, mk2, mk3, mkS, `\u029e`, `\U0000029e`, `\x{29e}`}
+// mkD is a marker in the shape of a date that is no calendar date: it passes any check of the shape alone, so a
+// checker that goes further (and quotes what it could not parse) is reached only by such a value
+const mkD = "1987-02-30"
+
+var c19Markers = []string{mk1, mk2, mk3, mkS, `\u029e`, `\U0000029e`, `\x{29e}`, mkD}
 
 func c19Values() []any {
 	return []any{
@@ -41,6 +45,7 @@ func c19Values() []any {
 		map[string]any{"a": map[string]any{"a": mk1}}, map[string]any{"a": []any{mk1, mk2}}, []any{map[string]any{"a": mk1}}, map[string]any{"a": 1.0, "b": mk1},
 		map[string]any{"a": mk1, "b": mk2, "c": mk3}, map[string]any{"a": "a", "b": mk1}, []any{"a", mk1},
 		"1.2.3.4 " + mk1, "::1" + mk1,
+		mkD, []any{mkD}, map[string]any{"a": mkD}, mkD + "T25:61:61Z",
 		mkS, []any{mkS}, map[string]any{"a": mkS}, map[string]any{"c": mkS}, []any{mkS, mk1}, map[string]any{"a": map[string]any{"a": mkS}},
 	}
 }
